@@ -57,6 +57,17 @@ func roundTripGTID(g replication.GTID, flavor string) error {
 	if !one.ContainsGTID(g) {
 		return fmt.Errorf("%v.GTIDSet() does not contain it", g)
 	}
+	// the generic accessors of the value that came back report the identifier's components
+	switch v := g.(type) {
+	case replication.Mysql56GTID:
+		if p.SequenceDomain() != nil || p.SourceServer() != interface{}(v.Server) || p.SequenceNumber() != interface{}(v.Sequence) {
+			return fmt.Errorf("accessors of the parsed %v: domain %v server %v sequence %v", g, p.SequenceDomain(), p.SourceServer(), p.SequenceNumber())
+		}
+	case replication.MariadbGTID:
+		if p.SequenceDomain() != interface{}(v.Domain) || p.SourceServer() != interface{}(v.Server) || p.SequenceNumber() != interface{}(v.Sequence) {
+			return fmt.Errorf("accessors of the parsed %v: domain %v server %v sequence %v", g, p.SequenceDomain(), p.SourceServer(), p.SequenceNumber())
+		}
+	}
 	return nil
 }
 
@@ -447,3 +458,6 @@ func TestC19(t *testing.T) {
 		}
 	})
 }
+
+// FuzzC19 is the native coverage-guided supplement of the generated part (thorough tier only).
+func FuzzC19(f *testing.F) { fuzzProperty(f, TestC19) }
